@@ -8,7 +8,8 @@ import (
 
 // C11_debug_upgrader: same for the upgrader wrapper.
 func C11_debug_upgrader() {
-	good := vChoose("good", 2) == 1
+	kind := vChoose("kind", 3) // 1: compliant; 0: wrong Connection; 2: a callback objects to the Host line while most of the request is still unread
+	good := kind == 1
 	reqBytes := []byte("GET /x HTTP/1.1\r\nHost: h\r\nUpgrade: websocket\r\nConnection: Upgrade\r\nSec-WebSocket-Version: 13\r\nSec-WebSocket-Key: dGhlIHNhbXBsZSBub25jZQ==\r\n\r\n")
 	if !good {
 		reqBytes = []byte("GET /x HTTP/1.1\r\nHost: h\r\nUpgrade: websocket\r\nConnection: close\r\nSec-WebSocket-Version: 13\r\nSec-WebSocket-Key: dGhlIHNhbXBsZSBub25jZQ==\r\n\r\n")
@@ -18,9 +19,15 @@ func C11_debug_upgrader() {
 	conn := &vPlainRW{in: append(append([]byte{}, reqBytes...), trailing...)}
 	ref := &vPlainRW{in: conn.in}
 	var u0 ws.Upgrader
+	// the wrapped upgrader's own options are part of the picture: a read buffer smaller than the
+	// request means the upgrader answers while request bytes are still unread
+	u0.ReadBufferSize = []int{0, 32}[vChoose("readbuf", 2)]
+	if kind == 2 {
+		u0.OnHost = func(h []byte) error { return vErrDst }
+	}
 	_, err0 := u0.Upgrade(ref)
 	var req, resp []byte
-	d := DebugUpgrader{}
+	d := DebugUpgrader{Upgrader: u0}
 	onReq, onResp := vChoose("onrequest", 2) == 1, vChoose("onresponse", 2) == 1
 	if onReq {
 		d.OnRequest = func(p []byte) { req = append(req, p...) }
